@@ -34,7 +34,7 @@ func init() {
 			// every callback must have run on a producer's goroutine, inside one of its calls
 			// (or inside the Subscribe call itself): nothing is handed to a hidden goroutine or queue
 			for _, ev := range rec.Events {
-				ok := ev.Actor == h.Actor.ID && ev.Enter >= h.Invoke && (!h.Returned || ev.Enter <= h.RetStep)
+				ok := ev.Actor == h.Actor.ID && ev.Enter >= h.Invoke && (!h.Ret() || ev.Enter <= h.RetStep)
 				for _, s := range srcs {
 					for _, c := range s.Calls {
 						if c.Actor == ev.Actor && c.Invoke <= ev.Enter && (c.Return == 0 || ev.Enter <= c.Return) {
